@@ -51,10 +51,10 @@ func c26Body(p c26Params) func() {
 		restart := make(chan struct{}, 4)
 		go func() {
 			for range restart {
-				n.Down[addr] = true
+				n.SetDown(addr, true)
 				e.srv.Close()
 				e = startServer(ctx, nodes)
-				n.Down[addr] = false
+				n.SetDown(addr, false)
 			}
 		}()
 		c := connect(ctx, opcua.AutoReconnect(true), opcua.ReconnectInterval(c25Interval), opcua.RequestTimeout(5*time.Second))
@@ -142,8 +142,8 @@ func c26Body(p c26Params) func() {
 					if f.Kind == "outage3" {
 						d = 3 * c25Interval
 					}
-					n.Down[addr] = true
-					vrt.AddTimer(int64(d)+int64(100*time.Millisecond), func() { n.Down[addr] = false })
+					n.SetDown(addr, true)
+					vrt.AddTimer(int64(d)+int64(100*time.Millisecond), func() { n.SetDown(addr, false) })
 				}
 				return "reset"
 			}
